@@ -36,6 +36,11 @@ func vxAssert(c bool, id string)
 func vxKnown(c bool, id string)
 func vxReach(id string)
 func vxNote(s string)
+func vxEmit(s string)
+func vxListing() []string
+func vxNVFile(path string)
+func vxNVLines(path string, lines []string)
+func vxFileLines(path string) []string
 func vxOr(a, b bool) bool
 func vxAnd(a, b bool) bool
 func vxNot(a bool) bool
@@ -57,6 +62,7 @@ func vxRaceAnalyse() int
 func vxRaceAnalyseAll() int
 func vxYield()
 func vxPreemptBudget(n int)
+func vxPreemptAtFS(on bool)
 func vxMapOrder(funcs string)
 func vxMapOrderOff()
 func vxMapOrderReverse(b bool)
@@ -68,6 +74,7 @@ func vxWalkExtra(path string)
 func vxClockSymbolic(on bool)
 func vxCmdFree(writes, exit bool)
 func vxKillAt(k int)
+func vxKillAtDesc(substr string)
 func vxOps() int
 func vxFSPut(path string, kind int, id int)
 func vxFSMkdirAll(path string)
